@@ -136,10 +136,11 @@ type clk struct{}
 func (clk) Now() time.Time { return time.Unix(1, 0) }
 
 func run(r *vk.Run) {
-	r.Describe("lossy (no backpressure) Collection.Pull / PullID / Value.Pull driven by receive permits: every valid sequence over {add,update,remove} x ids {a,b} (Value: set) of length <= 4 (thorough <= 6) from initial contents {empty,{a}} x every permit pattern (0/1 receive after each write), each step taken at a quiescent point; the received events are folded with per-id chain checks (ADD only for an id not held, UPDATE/REPLACE/REMOVE carry the held value as old value) and compared with List/Get after a final drain; every write must have returned at the quiescent point after it. Backpressure: nothing dropped, order kept, at most the pipeline depth of writes completes while the consumer is idle. Value send timeout: a Set whose event is not taken returns an error. Distinct = (resource, initial contents, op sequence, permit pattern).",
+	r.Describe("lossy (no backpressure) Collection.Pull / PullID / Value.Pull driven by receive permits: every valid sequence over {add,update,remove} x ids {a,b} (Value: set) of length <= 4 (thorough <= 6) from initial contents {empty,{a}} x every permit pattern (0/1 receive after each write), each step taken at a quiescent point; the received events are folded with per-id chain checks (ADD only for an id not held, UPDATE/REPLACE/REMOVE carry the held value as old value) and compared with List/Get after a final drain; every write must have returned at the quiescent point after it, also while the subscriber has not taken its seed yet and after a subscriber went away in the middle of its seed. Backpressure: nothing dropped, order kept, at most the pipeline depth of writes completes while the consumer is idle. Value send timeout: a Set whose event is not taken returns an error. Distinct = (resource, initial contents, op sequence, permit pattern).",
 		"quiescence stands for 'the consumer has received everything it will get'; permits model arbitrarily slow consumers",
 		"the five-second send timeout is real wall-clock time inside the library; the verdict is the returned error, the 120 s watchdog only yields inconclusive")
 	lossyCollection(r)
+	cancelDuringSeed(r)
 	lossyValue(r)
 	backpressure(r)
 	randomPacing(r)
@@ -178,6 +179,10 @@ func lossyCollection(r *vk.Run) {
 							ss[i].Permit = (pat >> i) & 1
 						}
 						colScenario(r, kind, withInit, ss, false, false)
+						if withInit && len(ss) <= 3 {
+							// the same history while the subscriber has not even taken its seed yet
+							colScenario(r, kind, withInit, ss, false, false, true)
+						}
 						if !withInit && len(ss) <= 3 {
 							// the same history for an updates-only subscriber (no seed): it is lossy too unless backpressure is asked for
 							colScenario(r, kind, withInit, ss, false, true)
@@ -213,7 +218,7 @@ func lossyCollection(r *vk.Run) {
 	}
 }
 
-func colScenario(r *vk.Run, kind string, withInit bool, steps []step, bp bool, updatesOnly bool) {
+func colScenario(r *vk.Run, kind string, withInit bool, steps []step, bp bool, updatesOnly bool, seedPending ...bool) {
 	var opts []resource.Option
 	opts = append(opts, resource.WithClock(clk{}))
 	var initA *tat
@@ -232,6 +237,10 @@ func colScenario(r *vk.Run, kind string, withInit bool, steps []step, bp bool, u
 	if updatesOnly {
 		mode += "+updatesOnly"
 	}
+	pending := len(seedPending) > 0 && seedPending[0] && withInit
+	if pending {
+		mode += "+seed-not-taken"
+	}
 	desc := fmt.Sprintf("%s/%s init=%v %s", kind, mode, withInit, renderSteps(steps))
 	replay := map[string]any{"kind": kind, "init": withInit, "steps": steps, "bp": bp, "updatesOnly": updatesOnly}
 	if kind == "pull" {
@@ -240,7 +249,7 @@ func colScenario(r *vk.Run, kind string, withInit bool, steps []step, bp bool, u
 		c.runVal(col.PullID(ctx, "a", resource.WithBackpressure(bp), resource.WithUpdatesOnly(updatesOnly)))
 	}
 	defer c.stop()
-	if withInit {
+	if withInit && !pending {
 		c.grant(1) // take the seed
 	}
 	if _, ok := r.MustQuiesce("c09-open"); !ok {
@@ -352,6 +361,67 @@ func colScenario(r *vk.Run, kind string, withInit bool, steps []step, bp bool, u
 				r.Violation("C09/last-value/pullid", fmt.Sprintf("[%s]: nothing received although a has a value", desc), replay)
 			} else if len(evs) > 0 && !vk.SameMessage(last, cur) {
 				r.Violation("C09/last-value/pullid", fmt.Sprintf("[%s]: last received %s, Get says %s", desc, vk.JSON(last), vk.JSON(cur)), replay)
+			}
+		}
+	}
+}
+
+// cancelDuringSeed: a subscriber that is still being offered its initial items goes away; writers must not wait for
+// it, with or without backpressure.
+func cancelDuringSeed(r *vk.Run) {
+	idx := 0
+	for _, kind := range []string{"pull", "pullid"} {
+		for _, bp := range []bool{false, true} {
+			for _, items := range []int{1, 3} {
+				for _, taken := range []int{0, 1} {
+					idx++
+					if !r.Mine(idx) || taken >= items && kind == "pull" {
+						continue
+					}
+					opts := []resource.Option{resource.WithClock(clk{})}
+					for _, id := range []string{"a", "b", "c"}[:items] {
+						opts = append(opts, resource.WithInitialRecord(id, mkVal(id)))
+					}
+					col := resource.NewCollection(opts...)
+					ctx, cancel := context.WithCancel(context.Background())
+					c := newConsumer()
+					c.cancel = cancel
+					if kind == "pull" {
+						c.runCol(col.Pull(ctx, resource.WithBackpressure(bp)))
+					} else {
+						c.runVal(col.PullID(ctx, "a", resource.WithBackpressure(bp)))
+					}
+					c.grant(taken)
+					mode := map[bool]string{false: "lossy", true: "bp"}[bp]
+					desc := fmt.Sprintf("%s/%s %d initial items, %d taken, then cancelled", kind, mode, items, taken)
+					if _, ok := r.MustQuiesce("c09-cancel-open"); !ok {
+						c.stop()
+						return
+					}
+					cancel()
+					if _, ok := r.MustQuiesce("c09-cancel"); !ok {
+						c.stop()
+						return
+					}
+					for i := 0; i < 2; i++ {
+						t := vk.Go(func() { col.Update("a", mkValLocked("a"), resource.WithCreateIfAbsent()) })
+						if _, ok := r.MustQuiesce("c09-cancel-write"); !ok {
+							c.stop()
+							return
+						}
+						r.Count("writes", 1)
+						if !t.Done() {
+							r.Violation("C09/writer-blocked/"+kind+"/"+mode+"/cancelled-during-seed", fmt.Sprintf("[%s]: write #%d has not returned at the quiescent point after it although the only subscriber was cancelled\n%s", desc, i, vk.DescribeGs(vk.LibraryGoroutines(vk.Goroutines(), nil))), map[string]any{"kind": kind, "bp": bp, "items": items, "taken": taken})
+							c.grant(100)
+							t.Wait()
+							break
+						}
+					}
+					r.Eval(1)
+					r.Count("cancel-during-seed-scenarios", 1)
+					r.Distinct(desc)
+					c.stop()
+				}
 			}
 		}
 	}
